@@ -39,9 +39,9 @@ def members_used(fn, root):
     return out
 
 
-def check_hash_eq(run, rule):
+def check_hash_eq(run, rule, only=None, floor=30):
     facts = run.facts
-    for T in KEY_TYPES:
+    for T in (only or KEY_TYPES):
         rec = facts.record(T, rule=rule)
         fields = [f["n"] for f in rec["fields"]]
         eq = [f for f in facts.fns(T + "::operator==")]
@@ -62,6 +62,20 @@ def check_hash_eq(run, rule):
         ok = ops <= {"==", "&&"}
         run.ob(rule, "%s:eq-is-conjunction" % short(T), ok, eq, eq["line"],
                "operator== is a conjunction of member equalities" if ok else "operator== uses %s" % sorted(ops - {"==", "&&"}), nontrivial=False)
+        # an optional member takes part with its presence: `x.value_or(d)` makes "absent" and "present with value d" the
+        # same key, so two different values share one table / map entry
+        hf_ = [f for f in facts.fns("CDNS::hash_value") if f["sig"] == ["const %s &" % T]]
+        for fn_, what_ in [(eq, "operator==")] + [(h_, "hash_value") for h_ in hf_]:
+            folded = []
+            for c_ in ir.calls_in(fn_["body"]):
+                if c_.get("k") == "MCall" and callee_name(c_) in ("value_or", "get_value_or"):
+                    p_ = path(c_.get("recv"))
+                    if p_ and len(p_) == 2 and p_[1] in fields:
+                        folded.append(p_[1])
+            run.ob(rule, "%s:%s-keeps-absent-distinct" % (short(T), what_), not folded, fn_, fn_["line"],
+                   "%s treats an absent optional member as different from every value" % what_ if not folded else
+                   "%s reads %s through value_or(): an absent member and one holding the default compare equal, so two distinct values "
+                   "are merged into one entry" % (what_, sorted(set(folded))))
         # != is the negation of == (either !(*this == rhs) or member-wise !=)
         txt = show(ir.stmts(ne["body"])[0].get("e")) if ir.stmts(ne["body"]) else ""
         ok = ("!" in txt and "==" in txt) or ("!=" in txt and set(members_used(ne, ("this",))) == set(fields))
@@ -79,7 +93,7 @@ def check_hash_eq(run, rule):
             ok = bool(inst)
             run.ob(rule, "%s:hash-whole-object" % short(T), ok, rec["file"], rec["line"],
                    "hashed through the raw-bytes template over the whole object (see R11.2)" if ok else "no hash function found for %s" % T)
-    run.floor(rule, 30, "key-type obligations")
+    run.floor(rule, floor, "key-type obligations")
 
 
 def check_byte_hash(run, rule):
